@@ -26,6 +26,20 @@ func main() {
 	switch os.Args[1] {
 	case "verify":
 		cmdVerify(os.Args[2:])
+	case "list":
+		v, err := loadAll(envOr("VERIF_REPO", "/repo"), allPatterns)
+		if err != nil {
+			fmt.Fprintln(os.Stderr, err)
+			os.Exit(2)
+		}
+		var ks []string
+		for k := range v.P.Funcs {
+			ks = append(ks, k)
+		}
+		sort.Strings(ks)
+		for _, k := range ks {
+			fmt.Println(k)
+		}
 	case "check":
 		cmdCheck(os.Args[2:])
 	default:
